@@ -102,3 +102,115 @@ func ConstInt(v ssa.Value) (int64, bool) {
 	}
 	return constant.Int64Val(c.Value)
 }
+
+// ResultFacts returns comparisons (over f's own SSA values: parameters, loads, len calls) that hold whenever the
+// bool function f returns want. f must be a small predicate: one bool result, no loop, no store, no call other
+// than the len builtin; otherwise nil. Short-circuit expressions are phis of constants and comparisons; an edge whose
+// constant differs from want cannot produce the result and is skipped, the other edges contribute the facts that
+// dominate them plus the comparison they carry, and the result is what all contributing edges agree on.
+func ResultFacts(f *ssa.Function, want bool) []Cmp {
+	if f == nil || f.Blocks == nil || f.Signature.Results().Len() != 1 {
+		return nil
+	}
+	// loop-free, effect-free
+	for _, b := range f.Blocks {
+		for _, s := range b.Succs {
+			if s.Dominates(b) {
+				return nil
+			}
+		}
+		for _, ins := range b.Instrs {
+			switch x := ins.(type) {
+			case *ssa.Store, *ssa.MapUpdate, *ssa.Send, *ssa.Go, *ssa.Defer, *ssa.Panic:
+				return nil
+			case ssa.CallInstruction:
+				bi, ok := x.Common().Value.(*ssa.Builtin)
+				if !ok || bi.Name() != "len" {
+					return nil
+				}
+			}
+		}
+	}
+	type set map[Cmp]bool
+	var impl func(v ssa.Value, want bool, depth int) (set, bool) // facts, possible
+	impl = func(v ssa.Value, want bool, depth int) (set, bool) {
+		if depth > 8 {
+			return set{}, true
+		}
+		switch x := v.(type) {
+		case *ssa.Const:
+			if x.Value == nil || x.Value.Kind() != constant.Bool {
+				return set{}, true
+			}
+			return set{}, constant.BoolVal(x.Value) == want
+		case *ssa.UnOp:
+			if x.Op == token.NOT {
+				return impl(x.X, !want, depth+1)
+			}
+		case *ssa.BinOp:
+			switch x.Op {
+			case token.LSS, token.LEQ, token.GTR, token.GEQ, token.EQL, token.NEQ:
+				op := x.Op
+				if !want {
+					op = negate(op)
+				}
+				return set{Cmp{x.X, x.Y, op}: true}, true
+			}
+		case *ssa.Phi:
+			var acc set
+			any := false
+			for i, e := range x.Edges {
+				fs, possible := impl(e, want, depth+1)
+				if !possible {
+					continue
+				}
+				for _, c := range Facts(x.Block().Preds[i]) {
+					fs[c] = true
+				}
+				if !any {
+					acc, any = fs, true
+					continue
+				}
+				for c := range acc {
+					if !fs[c] {
+						delete(acc, c)
+					}
+				}
+			}
+			if !any {
+				return set{}, false
+			}
+			return acc, true
+		}
+		return set{}, true
+	}
+	var acc set
+	any := false
+	for _, b := range f.Blocks {
+		ret, ok := b.Instrs[len(b.Instrs)-1].(*ssa.Return)
+		if !ok || len(ret.Results) != 1 {
+			continue
+		}
+		fs, possible := impl(ret.Results[0], want, 0)
+		if !possible {
+			continue
+		}
+		for _, c := range Facts(b) {
+			fs[c] = true
+		}
+		if !any {
+			acc, any = fs, true
+			continue
+		}
+		for c := range acc {
+			if !fs[c] {
+				delete(acc, c)
+			}
+		}
+	}
+	var out []Cmp
+	for c := range acc {
+		out = append(out, c)
+	}
+	return out
+}
